@@ -97,7 +97,7 @@ package store
 //@ func lib.Append
 //@   trusted
 //@   pure
-//@   ensures bytes(result) == bcat(bytes(a), bytes(b))
+//@   ensures bytes(result) == bcat(bytes(a), bytes(b)) && fresh(result)
 // writing to the parent changes the parent's recorded operations or its batch, never this transaction's
 // wiring (ASSUMED for the interface; the parent is another Txn, a versioned store or a pebble batch)
 //@ func (TxnWriterI).SetAt
@@ -164,3 +164,28 @@ package store
 //@   ensures[indexdropped] old(s.isTxn) ==> forall h int :: !indom(s.Indexer.db.txn.ops, h)
 //@ func (*Store).Flush
 //@   ensures[indexflushed] isnil(result) ==> forall h int :: !indom(s.Indexer.db.txn.ops, h)
+
+// ---- C07: indexing a certificate writes the store transaction and nothing else ---------------------------------------
+// IndexQC is also called on views that are later discarded (the last certificate of a candidate block is indexed into
+// the working store while a proposal or peer block is validated). Its whole effect is therefore one write through the
+// indexer's transaction - no process-wide cache or other state that a discarded view would leave behind.
+//@ func (*Indexer).qcHeightKey
+//@   trusted
+//@   pure
+//@ func (*Indexer).IndexQC
+//@   modifies map(uint64;valueOp), ghost(mutexHeld)
+//@ func (*Indexer).DeleteQCForHeight
+//@   modifies map(uint64;valueOp), ghost(mutexHeld)
+
+// ---- C10: an iterator keeps the prefix it was opened with -------------------------------------------------------------
+// The parent's iterator retains the prefix slice it is given (a versioned iterator uses it on its first step, a nested
+// Txn iterator checks it on every step). What Txn.Iterator / RevIterator hand down is therefore a slice of its own -
+// freshly allocated, holding the transaction's prefix followed by the requested one - never the transaction's reusable
+// read buffer, which the next Get() overwrites.
+//@ func (TxnReaderI).NewIterator
+//@   trusted
+//@   modifies elems(uint8), box([]byte), ghost(mutexHeld)
+//@ func (*Txn).Iterator
+//@   callsite NewIterator requires[ownprefix] fresh(arg1) && bytes(arg1) == bcat(bytes(t.prefix), bytes(prefix))
+//@ func (*Txn).RevIterator
+//@   callsite NewIterator requires[ownprefix] fresh(arg1) && bytes(arg1) == bcat(bytes(t.prefix), bytes(prefix))
